@@ -107,7 +107,7 @@ EXTRA = {
     "C07": ("the structure of the ASSD computation (two directed averages, borders by erosion with connectivity 1, distance map of the reference border read at the prediction border, masks only made boolean)", "assd_symmetric_ok, assd_directed_ok, assd_surface_ok"),
     "C06": ("the bodies of the Dice, IoU and RVD helpers over their four counts", "dice_body_ok, iou_body_ok, rvd_body_ok (lifted to dice / iou / rvd); centre-line Dice exercised in five memory layouts with and without label selection; large-scale masks (2^22 .. 2^24 voxels) judged by exact integer counts"),
     "C19": (None, "label_norm_idem / label_norm_order_free: the one list normalisation of a constructor (sorted set of labels) is proved idempotent and order-independent"),
-    "C10": ("the slice bounds of _get_bbox_nd, the union / fallback / padding of _get_paired_crop and the backend decision by number of axes", "bbox_bounds_ok, bbox_covers, paired_crop_ok (lifted to bboxNd), backend_default_ok; end-to-end theorems pipeline_counts_invariant (instance input, threshold matcher), pipeline_counts_invariant_merge (merge matcher, ties included) and pipeline_semantic_invariant (semantic input: components are transported and renumbered by any adjacency-preserving injective coordinate map, both backends), threshold matching on IoU/Dice and the metrics IoU/Dice/RVD"),
+    "C10": ("the slice bounds of _get_bbox_nd, the union / fallback / padding of _get_paired_crop and the backend decision by number of axes", "bbox_bounds_ok, bbox_covers, paired_crop_ok (lifted to bboxNd), backend_default_ok; end-to-end theorems pipeline_counts_invariant (instance input, threshold matcher), pipeline_counts_invariant_merge (merge matcher, ties included), pipeline_semantic_invariant_m2o / _merge (semantic input, many-to-one and merge matcher) and pipeline_semantic_invariant (semantic input: components are transported and renumbered by any adjacency-preserving injective coordinate map, both backends), threshold matching on IoU/Dice and the metrics IoU/Dice/RVD"),
 }
 
 SCALE = {"C01", "C03", "C04", "C06", "C07", "C10", "C14"}
